@@ -472,16 +472,26 @@ func asteriskDefineProcess(
 	defineArgIdx int,
 	argTs []*base.T,
 	argIdx int,
-	isStatic bool,
+	methodT *base.T,
 ) (int, int) {
+
+	isStatic := methodT.IsStatic
 
 	asteriskArrayT := base.MakeAnyArray()
 
 	mustBindCt := 0
 	for _, name := range definedArgNames[defineArgIdx+1:] {
-		if !base.IsKeySuffix(name) {
-			mustBindCt++
+		if base.IsKeySuffix(name) {
+			continue
 		}
+
+		// a parameter with a default (the `?Block` that closes a configured
+		// signature) takes no argument away from the rest parameter
+		if getDefinedArgT(m, methodT, class, name).HasDefault() {
+			continue
+		}
+
+		mustBindCt++
 	}
 
 	var positionalArgTs []*base.T
@@ -653,7 +663,7 @@ func checkAndPropagateArgs(
 					defineArgIdx,
 					sortedArgTs,
 					argIdx,
-					methodT.IsStatic,
+					methodT,
 				)
 
 			continue
